@@ -87,6 +87,7 @@ class Ctx:
         self.skip_case = False
         self.case_label = None
         self.case_state = {}
+        self.baselines = {}
 
     def count(self, key, n=1):
         self.stats[key] = self.stats.get(key, 0) + n
@@ -212,6 +213,155 @@ def judge_c05(ctx, idx, op, impl, mi, ms, reason):
                 f.append(Finding("property", idx, "encoding reports success although the writer failed after %s octets" % op[1], expected="err", observed=impl, name="C05_fault"))
     else:
         ctx.count("op_" + op[0] + "_" + impl.split(" ")[0])
+    return f
+
+
+def label_kv(label):
+    d = {}
+    for t in (label or "").split(" "):
+        if "=" in t:
+            k, v = t.split("=", 1)
+            d[k] = v
+    return d
+
+
+def judge_c06(ctx, idx, op, impl, mi, ms, reason):
+    f = same(ctx, idx, op, impl, mi, "Stream.readExact/Codec.decode/writeAll <-> Codec::decode/encode on scripted streams")
+    st = ctx.case_state
+    if op[0] == "sdec":
+        lab = label_kv(ctx.case_label)
+        ctx.count("sdec")
+        ctx.count("sdec_events_%d" % min(len(op[2].split(",")), 40))
+        key = "base" + op[1]
+        if key not in st:
+            st[key] = impl
+            # the baseline itself: one message per frame, each call consuming exactly its own frame, then end of stream
+            if "frames" in lab and op[2].count(",") == 0:
+                lens = lab["frames"].split(",")
+                parts = impl.split(";")
+                n = int(op[1])
+                want = lens[:n]
+                got = [p.rsplit("@", 1)[1] for p in parts if p.startswith("ok:")]
+                if got != want[:len(got)] or len(got) != min(n, len(lens)):
+                    f.append(Finding("property", idx, "reading the stream does not yield one message per frame consuming exactly that frame", expected="consumed " + ",".join(want), observed=impl[-200:], name="C06_read_frame"))
+        elif impl != st[key]:
+            f.append(Finding("property", idx, "the result of reading depends on how the octets are segmented / where Pending is placed", expected=st[key], observed=impl, name="C06_read_independent"))
+    elif op[0] == "senc":
+        ctx.count("senc")
+        if impl != "ok " + ms:
+            f.append(Finding("property", idx, "writing over a partially accepting stream does not put exactly the message's encoding on the stream", expected="ok " + ms, observed=impl, name="C06_write"))
+    else:
+        ctx.count("op_" + op[0])
+    return f
+
+
+def judge_c07(ctx, idx, op, impl, mi, ms, reason):
+    f = same(ctx, idx, op, impl, mi, "Stream.Codec.decode <-> Codec::decode on a byte-counting scripted stream")
+    if op[0] == "sdec":
+        lab = label_kv(ctx.case_label)
+        L = int(lab.get("L", "-1"))
+        first = impl.split(";")[0]
+        cls, _, used = first.partition("@")
+        cls = cls.split(":")[0]
+        ctx.count("L_" + ("lt20" if L < 20 else "gt1MiB" if L > (1 << 20) else "inrange") + "_" + cls)
+        # how much the script offers at all
+        offered = sum((len(t) - 2) // 2 for t in op[2].split(",") if t.startswith("d:"))
+        bad = None
+        if cls not in ("ok", "err"):
+            bad = "the stream reader did not return (%s)" % cls
+        elif offered >= 4:
+            if L > (1 << 20) and not (cls == "err" and used == "4"):
+                bad = "a frame announcing more than 1 MiB is not refused after its 4-octet prefix"
+            elif L < 20 and cls != "err":
+                bad = "a frame announcing less than a Diameter header is not refused"
+            elif used.isdigit() and int(used) > max(L, 4):
+                bad = "more than max(announced, 4) octets were taken from the stream"
+        if bad:
+            f.append(Finding("property", idx, bad, expected="see C07", observed=impl[:200], name="C07_hostile"))
+    else:
+        ctx.count("op_" + op[0])
+    return f
+
+
+def _serve_parts(ans):
+    m = re.match(r"calls=\[(.*)\] written=(\S+) end=(\S+)$", ans)
+    if not m:
+        return None
+    calls = [c for c in m.group(1).split(";") if c]
+    wr = m.group(2)
+    return calls, (0 if wr == "-" else len(wr) // 2), wr, m.group(3)
+
+
+def judge_c08(ctx, idx, op, impl, mi, ms, reason):
+    f = same(ctx, idx, op, impl, mi, "Server.serve <-> DiameterServer::process_incoming_message (verif_serve_stream)")
+    if op[0] != "serve":
+        ctx.count("op_" + op[0])
+        return f
+    lab = label_kv(ctx.case_label)
+    p = _serve_parts(impl)
+    if p is None:
+        f.append(Finding("property", idx, "the connection's task did not complete (%s)" % impl[:40], expected="calls=.. written=.. end=done", observed=impl[:200], name="C09_no_panic"))
+        return f
+    calls, wlen, wr, end = p
+    rl = [int(x) for x in lab.get("reqlens", "").split(",") if x]
+    al = [int(x) for x in lab.get("anslens", "").split(",") if x]
+    n = len(rl)
+    bad = None
+    kind = (ctx.case_label or "").split(" ")[3] if ctx.case_label else ""
+    if end != "done":
+        bad = "the connection's task did not end properly: end=%s" % end
+    elif "herr" in lab:
+        k = int(lab["herr"])
+        ctx.count("serve_herr")
+        if len(calls) != k + 1 or wlen != sum(al[:k]):
+            bad = "after a handler failure at position %d: %d calls, %d octets written (expected %d calls, %d octets)" % (k, len(calls), wlen, k + 1, sum(al[:k]))
+    elif "bad" in lab:
+        k = int(lab["bad"])
+        ctx.count("serve_malformed_kind" + lab.get("kind", "?"))
+        if len(calls) != k or wlen != sum(al[:k]):
+            bad = "after a malformed frame at position %d: %d calls, %d octets written (expected %d calls, %d octets)" % (k, len(calls), wlen, k, sum(al[:k]))
+    elif "readcut" in lab:
+        pcut = int(lab["readcut"])
+        k = 0
+        acc = 0
+        for l in rl:
+            if acc + l <= pcut:
+                acc += l
+                k += 1
+            else:
+                break
+        ctx.count("serve_readcut")
+        if len(calls) != k or wlen != sum(al[:k]):
+            bad = "stream cut at offset %d: %d handler calls, %d octets written (expected %d calls for the requests that arrived completely, %d octets)" % (pcut, len(calls), wlen, k, sum(al[:k]))
+    elif "writecut" in lab:
+        q = int(lab["writecut"])
+        k = 0
+        acc = 0
+        for l in al:
+            if acc + l <= q:
+                acc += l
+                k += 1
+            else:
+                break
+        want_calls = min(k + 1, n)
+        want_w = min(q, sum(al))
+        ctx.count("serve_writecut")
+        if len(calls) != want_calls or wlen != want_w:
+            bad = "write failure at offset %d: %d handler calls, %d octets written (expected %d calls, %d octets)" % (q, len(calls), wlen, want_calls, want_w)
+    else:
+        ctx.count("serve_good")
+        if len(calls) != n or wlen != sum(al):
+            bad = "%d requests: %d handler calls, %d octets written (expected %d)" % (n, len(calls), wlen, sum(al))
+        else:
+            # the same requests and answers under another segmentation must give the same calls and octets
+            key = lab.get("reqlens", "") + "/" + lab.get("anslens", "")
+            base = ctx.baselines.get(key)
+            if base is None:
+                ctx.baselines[key] = (calls, wr)
+            elif base != (calls, wr):
+                bad = "handler calls or octets written depend on segmentation / Pending placement"
+    if bad:
+        f.append(Finding("property", idx, bad, expected=mi[-200:], observed=impl[-200:], name="C08_all_good" if ctx.prop == "C08" else "C09_read_cut"))
     return f
 
 
@@ -369,6 +519,10 @@ PROPS = {
     "C03": dict(family="c03", judge=judge_c03, probes=("dec",), title="Decoding is faithful"),
     "C04": dict(family="c04", judge=judge_c04, probes=("decq",), title="The decoder is total"),
     "C05": dict(family="c05", judge=judge_c05, probes=("ench", "encw"), title="Encoding never reports success for a frame it did not fully produce"),
+    "C06": dict(family="c06", judge=judge_c06, probes=("sdec", "senc"), title="Stream framing is independent of how bytes are segmented"),
+    "C07": dict(family="c07", judge=judge_c07, probes=("sdec",), title="Hostile frame lengths on a stream are refused cheaply and safely"),
+    "C08": dict(family="c08", judge=judge_c08, probes=("serve",), title="Server answers each request exactly once, in order, unmodified"),
+    "C09": dict(family="c09", judge=judge_c08, probes=("serve",), title="Server survives connection loss at any byte offset"),
     "C14": dict(family="c14", judge=judge_c14, probes=("dget", "dbyname", "dapp", "dcmd"), title="Dictionary lookups reflect exactly what was loaded, latest wins"),
     "C15": dict(family="c15", extra=shipped_defs, judge=judge_c15, probes=("dec", "dget", "dbyname", "rt"), title="AVPs are typed by their exact dictionary entry or rejected"),
     "C16": dict(family="c16", extra=shipped_defs, judge=judge_c16, probes=("add_by_name", "avp_name", "enc", "dump", "len"), title="Building an AVP by name follows the dictionary; failure changes nothing"),
